@@ -6,6 +6,7 @@ the model's prediction for every kill point of that op.
 import Driver.StoreEng
 import KyroModel.Persist.Damage
 import KyroModel.Persist.Backup
+import KyroModel.Persist.Ops
 
 namespace Driver.PersistEng
 open KyroModel Driver
@@ -230,6 +231,18 @@ def step (st : Option St) (line : String) : Option St × String :=
   | _, none => (none, "bad-op:no-cfg")
   | _, some s0 =>
     let s : St := { s0 with nums := StoreEng.addNums s0.nums ((field? fs "nums").getD "-") }
+    if op == "fault" then (some s, "armed") else
+    if (field? fs "fail") == some "1" || (field? fs "accept") == some "io" then
+      -- the operation failed on a storage fault: it consumed its sequence numbers and, by C03, did nothing else
+      let n := match op with
+        | "insert" => 1
+        | "delete" | "update" => if ((natField? fs "id").map s.eng.store.has).getD false then 1 else 0
+        | "batch_delete" => (((natListField? fs "ids").getD []).filter fun id => s.eng.store.has id).length
+        | _ => 0
+      let r := pStep s.eng s.disk (.ioFailed n)
+      (some { s with eng := r.1 },
+        (if op == "insert" then "rejected" else "err") ++ " acts= rec=" ++ showRecover s.disk)
+    else
     if op == "tick" || op.startsWith "bk_" then
       match bkStep s op fs with
       | some (s', o) => (some s', o)
